@@ -12,6 +12,7 @@ import (
 // detail. The enumeration is deterministic and complete for the operator menus below.
 //
 //	set(field,v)      numeric fields (<= 4 bytes): a menu of values incl. 0, +-1, boundaries, known type codes
+//	                  (thorough: all 256 values of one-byte fields, 0..300 and 2^k+-1 for two-byte fields)
 //	flip/zero/ones    first-bit flip, last-bit flip, 00-fill, ff-fill of every region
 //	grow(field,k)     k junk bytes appended inside a length-delimited region and the length bumped (k=1..6)
 //	shrinklen(field)  length field decreased by one with the data left in place
@@ -83,6 +84,20 @@ func Mutations(s []byte, regs []refmodel.Region, allCuts bool, emit func(class, 
 				menu = []uint64{0, 1, 2, 3, 4, 5, 6, 7, 8, 9, 10, 11, 12, 20, 21, 255, 256, 65280, 65534, 65535, cur + 1, cur - 1, cur + 2, cur + 6, cur - 4}
 			default:
 				menu = []uint64{0, 1, 1<<31 - 1, 1 << 31, max, cur + 1, cur - 1}
+			}
+			if allCuts { // thorough tier: every value of one-byte fields, dense menus for two-byte fields
+				if r.Len == 1 {
+					for v := uint64(0); v < 256; v++ {
+						menu = append(menu, v)
+					}
+				} else if r.Len == 2 {
+					for v := uint64(0); v <= 300; v++ {
+						menu = append(menu, v)
+					}
+					for k := uint(1); k < 16; k++ {
+						menu = append(menu, 1<<k-1, 1<<k, 1<<k+1)
+					}
+				}
 			}
 			seen := map[uint64]bool{cur: true}
 			for _, v := range menu {
